@@ -1,8 +1,8 @@
 package main
 
 import (
-	"encoding/binary"
 	"bytes"
+	"encoding/binary"
 	"fmt"
 	"math/rand"
 	"os"
